@@ -82,6 +82,7 @@ def load_code(self):
     tea_decipher(data, key)
     self.bufpos += padsize
     obj = xmarshal._FastUnmarshaller(struct.pack("<%dL" % intsize, *data))
+    obj.dispatch = self.dispatch  # nested code objects are encrypted too
     code = obj.load_code()
     co_code = patch(code.co_code)
     if PYTHON3:
@@ -283,6 +284,9 @@ def loads(s):
     with our decoding version.
     """
     um = xmarshal._FastUnmarshaller(s)
+    # Override code loading for this unmarshaller only: the class-level
+    # dispatch table is shared by every xdis.marsh.loads() call.
+    um.dispatch = dict(um.dispatch)
     um.dispatch[xmarshal.TYPE_CODE] = load_code
     return um.load()
 
